@@ -660,7 +660,9 @@ def group_key(cfg):
     if cfg.cls == "HRevolve":
         return (cfg.cls, cfg.N, cfg.params[:2])
     if cfg.cls in REVOLVE_FAMILY:
-        return (cfg.cls, cfg.N, cfg.params[:1])
+        # the three classes with the signature (max_n, ram, costs) together:
+        # a table keyed on the arguments but not on the algorithm
+        return ("revolve3", cfg.N, cfg.params[:1])
     if cfg.cls == "Multistage":      # all RAM/DISK splits of one total
         return (cfg.cls, cfg.N, cfg.params[0] + cfg.params[1], cfg.params[2])
     if cfg.cls == "Mixed":           # both storages
@@ -668,6 +670,27 @@ def group_key(cfg):
     if cfg.cls == "TwoLevel":        # units / storage / trajectory variants
         return (cfg.cls, cfg.N, cfg.params[0])
     return (cfg.cls, cfg.N, cfg.params)
+
+
+def twin_order(configs, idxs):
+    """Third pass over a small group that mixes Revolve, DiskRevolve and
+    PeriodicDiskRevolve: per cost vector DiskRevolve, Revolve,
+    PeriodicDiskRevolve, Revolve -- objects of different classes built from
+    *equal* arguments directly after one another, each way round."""
+    c0 = configs[idxs[0]]
+    if group_key(c0)[0] != "revolve3" or c0.N > 10 or \
+            len({configs[i].cls for i in idxs}) < 2:
+        return []
+    by = {}
+    for i in idxs:
+        by.setdefault(configs[i].params[1:], {})[configs[i].cls] = i
+    out = []
+    for cv in by:
+        m = by[cv]
+        for cls in ("DiskRevolve", "Revolve", "PeriodicDiskRevolve", "Revolve"):
+            if cls in m:
+                out.append(m[cls])
+    return out
 
 
 def run_box(configs, reducer, jobs=None, observers=True, orders=1):
@@ -678,8 +701,9 @@ def run_box(configs, reducer, jobs=None, observers=True, orders=1):
     orders=1: returns one summary per configuration.
     orders=2: every group with more than one member is driven a second time in
     reverse order (same process, right after the first time), so that a result
-    that depends on which sibling came first is seen; returns a list of
-    summaries per configuration."""
+    that depends on which sibling came first is seen -- and small groups of
+    the three (max_n, ram, costs) classes a third time in twin order, see
+    twin_order(); returns a list of summaries per configuration."""
     groups = {}
     for i, c in enumerate(configs):
         groups.setdefault(group_key(c), []).append(i)
@@ -693,6 +717,9 @@ def run_box(configs, reducer, jobs=None, observers=True, orders=1):
                 out.append((i, reducer(drive(configs[i], observers=observers))))
             if orders > 1 and len(idxs) > 1:
                 for i in reversed(idxs):
+                    out.append((i, reducer(drive(configs[i],
+                                                 observers=observers))))
+                for i in twin_order(configs, idxs):
                     out.append((i, reducer(drive(configs[i],
                                                  observers=observers))))
         return out
